@@ -435,10 +435,46 @@ def describe(h):
     return '; '.join(out)
 
 
+def concurrent_add(ctx):
+    """Two handle clones call add_signal while the other is paused at every point (deterministic
+    scheduler over the shim's mutex/atomic operations); afterwards every owner is dropped: no
+    registration of the instance may survive (no wake-up on a later dispatch) and its write end must
+    be closed.  This is the concurrent half of the clean-up sentence (and of C01's 'removal by
+    dropping the object that owns it')."""
+    cases = []
+    for s1, s2 in ((10, 10), (10, 12)):
+        for first in (0, 1):
+            for i in range(0, 70 if ctx.tier == 'quick' else 140):
+                cases.append((s1, s2, [first] * i + [1 - first] * 150 + [first] * 150))
+    inp = '\n'.join('%d %d %d %s' % (a, b, len(sc), ' '.join(map(str, sc))) for a, b, sc in cases) + '\n'
+    rc, out, _ = common.sh([common.bin_path('ls_addsig')], input=inp.encode(), timeout=600)
+    lines = out.split('\n')
+    bad_run = 0
+    for (a, b, sc), l in zip(cases, lines):
+        ctx.evaluations += 1
+        p = l.split()
+        if len(p) != 6:
+            bad_run += 1
+            continue
+        ok1, ok2, fdopen, wakes, stuck, pan = map(int, p)
+        split = next((k for k, x in enumerate(sc) if x != sc[0]), 0)
+        ctx.distinct.add(('concurrent-add', a == b, sc[0], split))
+        key = {'concurrent_add': [a, b], 'first': sc[0], 'steps_before_switch': split}
+        case = {'signals': [a, b], 'schedule': sc[:split + 3], 'observed': l, 'replay': 'echo "%d %d %d %s" | harness/target/debug/ls_addsig' % (a, b, len(sc), ' '.join(map(str, sc)))}
+        if wakes or fdopen:
+            ctx.violation(key, 'concurrent add_signal(%d) / add_signal(%d) on two handle clones (switch after %d steps of the first): after every owner was dropped '
+                          '%d wake-up(s) still happen on a later dispatch and the write end is %s - a registration of the instance survived its owners'
+                          % (a, b, split, wakes, 'still open' if fdopen else 'closed'), case)
+        elif stuck or pan or ok1 != 1 or ok2 != 1:
+            ctx.violation(key, 'concurrent add_signal calls did not both succeed: results %s' % l, case)
+    ctx.correspondence('concurrent add_signal probe ran (ls_addsig)', bad_run == 0 and rc == 0, out[-500:] if bad_run else None)
+    ctx.coverage['concurrent_add_cases'] = len(cases)
+
+
 def run(ctx, only=None):
     ctx.trusted_base = TB
     ctx.assumptions = ASSUME
-    if not ctx.harness(['p_c12']):
+    if not ctx.harness(['p_c12', 'ls_addsig']):
         return
     ctx.translate(COMPONENTS)
     ctx.prove('props/C12.v')
@@ -514,6 +550,8 @@ def run(ctx, only=None):
         'SIGPIPE its action wakes again and the handler re-enters forever (measured: new([10, 13]); handle(); drop(object); raise(10) never '
         'returns). This is outside the C12 statement (self-pipe wake-up, C13) and is reported separately.']
     ctx.coverage['histories'] = len(hists)
+    if only is None:
+        concurrent_add(ctx)
     ctx.coverage['outcome_histogram'] = hist_outcomes(hists, impl)
 
 
